@@ -362,17 +362,17 @@ pub fn main(args: &Args) -> i32 {
         (
             "two-callers",
             Params { callers: 2, noreply: false, timeout: false, eof: true, strays: 1 },
-            if quick { vec![Some(4)] } else { vec![Some(6), None] },
+            if quick { vec![Some(5)] } else { vec![Some(7), None] },
         ),
         (
             "two-callers-noreply",
             Params { callers: 2, noreply: true, timeout: false, eof: false, strays: 0 },
-            if quick { vec![Some(3)] } else { vec![Some(5), Some(6)] },
+            if quick { vec![Some(4)] } else { vec![Some(6), Some(7)] },
         ),
         (
             "three-callers",
             Params { callers: 3, noreply: false, timeout: false, eof: true, strays: 1 },
-            if quick { vec![Some(3)] } else { vec![Some(5), Some(6)] },
+            if quick { vec![Some(4)] } else { vec![Some(6), Some(7)] },
         ),
         (
             "timeout-one-caller",
@@ -382,13 +382,13 @@ pub fn main(args: &Args) -> i32 {
         (
             "timeout-two-callers",
             Params { callers: 2, noreply: false, timeout: true, eof: false, strays: 0 },
-            if quick { vec![Some(3)] } else { vec![Some(5), Some(6)] },
+            if quick { vec![Some(4)] } else { vec![Some(6), Some(7)] },
         ),
         (
             "queue-pressure",
             // more stray replies than the method-return queue holds (8)
             Params { callers: 2, noreply: false, timeout: false, eof: false, strays: 10 },
-            if quick { vec![Some(3)] } else { vec![Some(5)] },
+            if quick { vec![Some(4)] } else { vec![Some(6)] },
         ),
     ];
     for (name, p, bounds) in scenarios {
